@@ -426,6 +426,11 @@ fn parent(prop_id: &str, tier: &str) -> i32 {
         exhaustive_parts.extend(r.exhaustive_parts.iter().cloned());
         gen_defects.extend(r.generator_defects.iter().cloned());
     }
+    for c in props::required_classes(prop.id) {
+        if counters.get(&c).copied().unwrap_or(0) == 0 && inconclusive.is_empty() && violations.is_empty() {
+            gen_defects.push(format!("generator never produced required class {c}"));
+        }
+    }
     notes.sort();
     notes.dedup();
     if !missing.is_empty() {
